@@ -212,7 +212,7 @@ func runParent(def *CheckDef, tier string, seed int64, scratch string, nw int) i
 	distinct := map[uint64]struct{}{}
 	var samples []interface{}
 	var violations []Violation
-	var inconclusive []string
+	inconclusive := []string{}
 	var evals int64
 	for k := range states {
 		st := &states[k]
